@@ -17,6 +17,7 @@ def jobs(tier):
         J('sort-migrations', dict(MODE=3, NR=3)),
         J('mutation-parents', dict(MODE=4, NN=3, NE=2, NS=2, NR=2, TP_HI=0, SP_HI=0),
           require_tags={'end': 1, 'accept': 1, 'parent-after-child': 1}),
+        J('canonicalise-row-orders', dict(MODE=5)),
     ]
     if tier == 'quick':
         return q
@@ -35,15 +36,18 @@ BOUNDS = {
              '2-3 mutations (positions and known times symbolic, duplicate positions, unknown times, mutation parents), 3 '
              'migrations (time/left symbolic, source/dest/node enumerated); every row tagged by 1-byte metadata. '
              'compute_mutation_parents: all 3-node 2-edge tree sequence classes x 2 sites x 2 mutations (site/node '
-             'enumerated, stale parent values)',
+             'enumerated, stale parent values). canonicalise: one 4-node collection with a chain of 3 nested mutations '
+             '(unknown times, deeper mutation on the lower node id) at one site and a lone mutation at another, 2 sites with '
+             'symbolic distinct positions, 2 edges, 2 individuals, 2 populations; 12 mutation row orders x edge / site / '
+             'individual / population row swaps',
     'thorough': 'plus 4 edges, 3 sites x 3 mutations, and 4-node 3-edge tree sequences (time-boxed)',
 }
-OUTSIDE = ['canonicalise / subset-based canonical ordering (see C14 harness for subset)', 'compute_mutation_times, deduplicate_sites',
+OUTSIDE = ['canonicalise beyond the one enumerated collection (other shapes, migrations, known mutation times, individual parents)', 'compute_mutation_times, deduplicate_sites',
            'qsort orders among equal keys other than the stable one', 'individual sorting']
 ASSUMPTIONS = ['qsort is modelled as a stable insertion sort (engine/shim.c)', 'documented key orders from TableCollection.sort docstring']
 MANIFEST = dict(
     text='Symbolic execution of the real table sorter and compute_mutation_parents with symbolic sort keys: output rows are a '
          'permutation of the input rows identified by metadata tags, in the documented key order, ids remapped, other tables '
-         'untouched, idempotent; mutation parents equal the nearest-mutation-above oracle on every small tree sequence class.',
+         'untouched, idempotent; mutation parents equal the nearest-mutation-above oracle on every small tree sequence class; canonicalise gives identical, loadable tables for every row order of one enumerated collection.',
     note='Bounded row counts; qsort stub is stable; trusts clang IR, engine (native replay of sampled paths), z3.',
     technique='symbolic execution of LLVM IR + SMT (z3), bounded, differential against documented order / naive oracle')
